@@ -81,6 +81,7 @@ func (c *container) Execve(ctx context.Context, param ExecveParam) runner.Result
 	if err := c.sendCmd(cm, msg); err != nil {
 		return errResult("execve: sendCmd %v", err)
 	}
+	verifPoint("execve:sent")
 	// sync function
 	rep, msg, err := c.recvReply()
 	if err != nil {
@@ -90,6 +91,7 @@ func (c *container) Execve(ctx context.Context, param ExecveParam) runner.Result
 	if rep.Error != nil {
 		return errResult("execve: %v", rep.Error)
 	}
+	verifPoint("execve:sync-reply")
 	// if pid not received
 	if msg.Cred == nil {
 		// tell kill function to exit and sync
@@ -105,10 +107,12 @@ func (c *container) Execve(ctx context.Context, param ExecveParam) runner.Result
 			return errResult("execve: syncfunc failed %v", err)
 		}
 	}
+	verifPoint("execve:synced")
 	// send to syncFunc ack ok
 	if err := c.sendCmd(cmd{Cmd: cmdOk}, unixsocket.Msg{}); err != nil {
 		return errResult("execve: ack failed %v", err)
 	}
+	verifPoint("execve:ok-sent")
 
 	// wait for done
 	return c.waitForDone(ctx, sTime)
@@ -116,6 +120,7 @@ func (c *container) Execve(ctx context.Context, param ExecveParam) runner.Result
 
 func (c *container) waitForDone(ctx context.Context, sTime time.Time) runner.Result {
 	mTime := time.Now()
+	verifPoint("execve:wait")
 	select {
 	case <-c.done: // socket error
 		return convertReplyResult(reply{}, sTime, mTime, c.err)
